@@ -1,9 +1,59 @@
 import Driver.Util
-/-! Driver ops for C04: every op is a verdict computed by the harness on the implementation
-(fault observation, faithfulness of failure reporting, positions in range); the property demands
-`1` (for `audit`: `1` or `1/1`). -/
+import Driver.C05
+import CCVerif.Model.Parser
+/-! Driver ops for C04.
+
+* `c04 lexpos <syn> <hex>` → `<ranges> err=<p|none> fails=<0|1> inrange=<0|1>`: the ranges `lo:hi` of the
+  tokens of the lexer model up to and including the first INTERRUPT (`Ilo:hi`) or END (`Elo:hi`), the
+  position of the first unknown symbol (what `LexerBase::Stream` reports as `unknownSymbol`), the
+  verdict of the parser model, and whether all shown ranges satisfy `lo ≤ hi ≤ n`, are ordered and
+  END is `[n,n]` (`n` = number of units). This ties `lex_tiles_input` / `lex_first_error` /
+  `lex_error_fails_parse` of Properties/C04.lean to the position bookkeeping of the real lexers.
+  Spec: `x x x inrange=1`; with an unknown symbol in the text `x x fails=1 inrange=1`.
+  MATH text that is not well-formed UTF-8 is outside the lexer model: model `skip`, the oracle stays.
+* every other op is a verdict computed by the harness on the implementation (fault observation,
+  faithfulness of failure reporting, positions in range); the property demands `1`. -/
 namespace Driver.C04
+open CCVerif.Syntax CCVerif.Lexer CCVerif.Parser Driver
+
+def rangeWire (t : RawTok) : String :=
+  (if t.id == .INTERRUPT then "I" else if t.id == .END then "E" else "") ++ s!"{t.lo}:{t.hi}"
+
+/-- tokens up to and including the first INTERRUPT / END (where `yylex` stops) -/
+def upToStop : List RawTok → List RawTok
+  | [] => []
+  | t :: r => if t.id == .INTERRUPT || t.id == .END then [t] else t :: upToStop r
+
+def ordered : List RawTok → Bool
+  | a :: b :: r => decide (a.hi ≤ b.lo) && ordered (b :: r)
+  | _ => true
+
+def inRange (n : Nat) (ts : List RawTok) : Bool :=
+  ts.all (fun t => decide (t.lo ≤ t.hi) && decide (t.hi ≤ n) &&
+    (if t.id == .END then t.lo == n && t.hi == n else true) &&
+    (if t.id == .INTERRUPT then decide (t.lo < n) else true)) && ordered ts
+
+def lexpos (syn : Syn) (h : String) : String :=
+  match C05.unitsOf syn (parseHex h) with
+  | none => "skip\tx x x inrange=1"
+  | some u =>
+    match lexRaw syn u with
+    | none => "stuck\tx x x inrange=1"
+    | some ts =>
+      let shown := upToStop ts
+      let err := match shown.find? (fun t => t.id == .INTERRUPT) with
+        | some t => toString t.lo
+        | none => "none"
+      let fails := (parse syn u).isNone
+      let model := s!"{joinWith "," (shown.map rangeWire)} err={err} fails={bit fails} inrange={bit (inRange u.length shown)}"
+      let spec := if err == "none" then "x x x inrange=1" else "x x fails=1 inrange=1"
+      s!"{model}\t{spec}"
+
 def handle (args : List String) : String :=
   match args with
+  | ["lexpos", s, h] =>
+    match C05.synOf s with
+    | some syn => lexpos syn h
+    | none => "bad-op\tn/a"
   | _ => "skip\t1"
 end Driver.C04
